@@ -565,6 +565,7 @@ acquire_stop(struct AcquireRuntime* self_)
         ECHO(thread_join(&video->filter.thread));
         ECHO(thread_join(&video->sink.thread));
         channel_accept_writes(&video->sink.in, 1);
+        channel_accept_writes(&video->filter.in, 1);
 
         // If the monitor has been initialized and its read region hasn't
         // already been released, flush it. This takes at most 2 iterations.
@@ -606,6 +607,9 @@ acquire_abort(struct AcquireRuntime* self_)
 
         video->source.is_stopping = 1;
         channel_accept_writes(&video->sink.in, 0);
+        // The source may just as well be blocked on the filter's queue (frame
+        // averaging), e.g. when the filter thread has died.
+        channel_accept_writes(&video->filter.in, 0);
         // if the camera is waiting on a trigger, this will unblock it.
         camera_execute_trigger(video->source.camera);
     }
